@@ -1478,6 +1478,17 @@ class Interp:
             return acc
         if f is BUILTINS["sorted"] and args:
             return self.py_sorted(args[0], kwargs.get("key"), kwargs.get("reverse", False), node)
+        if f is _GROUPBY and args:
+            # itertools.groupby: runs of *consecutive* items with equal keys, in order (eager)
+            keyf = kwargs.get("key") if "key" in kwargs else (args[1] if len(args) > 1 else None)
+            out = []
+            for x in self.iterate(args[0], node):
+                kx = x if keyf is None else self.call(keyf, [x], {}, node, mod)
+                if out and self.truth(self.compare(ast.Eq, out[-1][0], kx, node), node):
+                    out[-1][1].append(x)
+                else:
+                    out.append((kx, [x]))
+            return out
         if f in (BUILTINS["all"], BUILTINS["any"]) and len(args) == 1:
             # truth of abstract values goes through the interpreter (__bool__ of repository classes, Zero, ...)
             items = self.iterate(args[0], node) if self.obj_class(args[0]) is not None else list(args[0])
@@ -1650,6 +1661,8 @@ def _b_max(*a, **kw):
         a = tuple(a[0])
     if any(isinstance(x, (T, sym.Ex)) for x in a):
         raise Unsupported("max() of symbolic values")
+    if not a and "default" not in kw:
+        raise LiftRaise("ValueError: max() iterable argument is empty")
     return max(a, **kw)
 
 
@@ -1658,6 +1671,8 @@ def _b_min(*a, **kw):
         a = tuple(a[0])
     if any(isinstance(x, (T, sym.Ex)) for x in a):
         raise Unsupported("min() of symbolic values")
+    if not a and "default" not in kw:
+        raise LiftRaise("ValueError: min() iterable argument is empty")
     return min(a, **kw)
 
 
@@ -1745,6 +1760,10 @@ class _Chain:
         return [x for it in _it(its) for x in _it(it)]
 
 
+def _GROUPBY(*a, **k):  # placeholder identity: interpreted in Interp.call (the key function is lifted code)
+    raise Unsupported("itertools.groupby outside the interpreter")
+
+
 # documented standard-library semantics used by the analysed code (trusted models)
 STDLIB = {
     "numbers.Integral": BUILTINS["int"],
@@ -1754,6 +1773,7 @@ STDLIB = {
     "numbers.Complex": _NumTower("Complex"),
     "itertools.chain": _Chain(),
     "itertools.count": __import__("itertools").count,
+    "itertools.groupby": _GROUPBY,
     "itertools.product": lambda *a, repeat=1: list(__import__("itertools").product(*[_it(x) for x in a], repeat=repeat)),
     "collections.defaultdict": __import__("collections").defaultdict,
     "functools.cmp_to_key": __import__("functools").cmp_to_key,
